@@ -135,12 +135,20 @@ func opErr(op, addr string, err error) error {
 
 //go:norace
 func latency() {
-	// seeded small latency; 0 is the simplest choice
-	switch simrt.ChooseF(6) {
+	// seeded latency; 0 is the simplest choice. Values span code-execution scale
+	// (microseconds) to network scale (milliseconds) so that completions can land inside
+	// short windows of other tasks.
+	switch simrt.ChooseF(12) {
 	case 1:
 		simrt.Sleep(50 * time.Microsecond)
 	case 2:
 		simrt.Sleep(2 * time.Millisecond)
+	case 3:
+		simrt.Sleep(time.Duration(1+simrt.ChooseF(40)) * time.Microsecond)
+	case 4:
+		simrt.Sleep(time.Duration(1+simrt.ChooseF(400)) * time.Microsecond)
+	case 5:
+		simrt.Sleep(time.Duration(1+simrt.ChooseF(30)) * time.Millisecond)
 	}
 }
 
